@@ -668,7 +668,7 @@ package logqlengine
 //@   ensures[plain-unwrap-parses-float] ret1 == nil && typeis[*labelsExtractor](ret0) && old(expr.Range.Unwrap.Op) == "" ==> same(first(as[*labelsExtractor](ret0).converter(s)), first(strconv.ParseFloat(s, 64)))
 //@   ensures[bytes-unwrap] ret1 == nil && typeis[*labelsExtractor](ret0) && old(expr.Range.Unwrap.Op) == "bytes" ==> same(first(as[*labelsExtractor](ret0).converter(s)), first(convertBytes(s)))
 //@   ensures[duration-unwrap] ret1 == nil && typeis[*labelsExtractor](ret0) && (old(expr.Range.Unwrap.Op) == "duration" || old(expr.Range.Unwrap.Op) == "duration_seconds") ==> same(first(as[*labelsExtractor](ret0).converter(s)), first(convertDuration(s)))
-//@   ensures[unknown-conversion-rejected] old(expr.Range.Unwrap) != nil && !(old(expr.Range.Unwrap.Op) == "" || old(expr.Range.Unwrap.Op) == "bytes" || old(expr.Range.Unwrap.Op) == "duration" || old(expr.Range.Unwrap.Op) == "duration_seconds") && typeis[*labelsExtractor](ret0) ==> ret1 != nil
+//@   ensures[unknown-conversion-rejected] old(expr.Range.Unwrap) != nil && !(old(expr.Range.Unwrap.Op) == "" || old(expr.Range.Unwrap.Op) == "bytes" || old(expr.Range.Unwrap.Op) == "duration" || old(expr.Range.Unwrap.Op) == "duration_seconds") && !(expr.Op == logql.RangeOpCount || expr.Op == logql.RangeOpAbsent || expr.Op == logql.RangeOpBytes || expr.Op == logql.RangeOpBytesRate) ==> ret1 != nil
 
 //@ iface sampleExtractor.Extract
 //@   modifies e.set.labels[*]
